@@ -99,7 +99,7 @@ func steps(kind string, n int, st upstream.Step) []upstream.Step {
 
 // Families are the scenario families of C01/C05/C19.
 var Families = []string{"steady", "reset-after-k", "neverack-restart", "neverack-restart-notraffic", "refuse-then-recover", "late-ack",
-	"stop-with-pending-acks", "stop-mid-chunk", "restarts-in-a-row", "open-at-stop", "wrong-id", "blackhole-restart", "two-outputs-one-faulty", "overflow", "session-renewal"}
+	"stop-with-pending-acks", "stop-mid-chunk", "restarts-in-a-row", "open-at-stop", "wrong-id", "blackhole-restart", "two-outputs-one-faulty", "overflow", "session-renewal", "young-pipeline-at-stop"}
 
 // GenScenario draws one scenario of a family.
 func GenScenario(r *rand.Rand, family string, idx int, o Opt) Scenario {
@@ -211,6 +211,21 @@ func GenScenario(r *rand.Rand, family string, idx int, o Opt) Scenario {
 		sc.Gens = []GenSpec{
 			{Conns: cs, UpScript: all(steps("neverack", 60, upstream.Step{})), StopDelayMs: 30},
 			{UpScript: healthy(), WaitAcked: false, StopDelayMs: 150}}
+	case "young-pipeline-at-stop":
+		// the first records of a brand-new key set arrive right before the stop: its pipeline is younger than the flush
+		// interval (made long here), so only the stop itself can flush its partial chunk
+		sc.InterFlushMs = 400
+		sc.ChunkBytes = 200000
+		cs := conns()
+		late := ConnSpec{ID: nextID}
+		nextID++
+		for s := 1; s <= 1+r.Intn(3); s++ {
+			late.Recs = append(late.Recs, Rec{Conn: late.ID, Seq: s, App: "appNew", Sev: 2, Host: "h1", Kind: "plain", Pad: r.Intn(30)})
+		}
+		// it starts when the others are done or nearly done
+		late.StartMs = 60 + r.Intn(60)
+		cs = append(cs, late)
+		sc.Gens = []GenSpec{{Conns: cs, UpScript: healthy(), StopDelayMs: 0}, {UpScript: healthy(), WaitAcked: true}}
 	case "session-renewal":
 		sc.MaxDurMs = 20 + r.Intn(60)
 		cs := conns()
